@@ -301,15 +301,20 @@ class HydrodynamicsTemplateModel:
         vm = min(self.cb, vw)
         vpMax = min(self.cs2 / vw, vw) if constraint else vm
 
-        # Find lower and upper bounds on alpha
+        # Find lower and upper bounds on alpha. wFromAlpha has a pole at
+        # alpha = (mu-nu)/(3mu); alpha_+ lies on the same side of it as alpha_n.
+        alPole = (self.mu - self.nu) / (3 * self.mu)
         alMin = max(
             (vm - vpMax)
             * (self.cb2 - vm * vpMax)
             / (3 * self.cb2 * vm * (1 - vpMax**2)),
-            (self.mu - self.nu) / (3 * self.mu),
             0,
         ) + 1e-10
         alMax = 1 / 3
+        if self.alN > alPole:
+            alMin = max(alMin, alPole + 1e-10)
+        else:
+            alMax = alPole - 1e-10
         branch = -1
 
         if self._eqWall(alMin, vm) * self._eqWall(alMax, vm) > 0 and vm > self.cb2:
@@ -435,17 +440,31 @@ class HydrodynamicsTemplateModel:
             vp = self.getVp(vm, al)
             return self._shooting(vw, vp)
 
-        if self.alN < (1 - self.psiN) / 3 or self.alN <= (self.mu - self.nu) / (
-            3 * self.mu
-        ):
+        if self.alN < (1 - self.psiN) / 3:
             # alpha is too small
             return 0.0
-        if self.alN > self.maxAl(100) or shootingInLTE(self.vJ) < 0:
+        if self.alN > self.maxAl(100):
+            # alpha is too large
+            return 1.0
+
+        def shockFront(vw: float) -> float:
+            # Positive if the shock front would be behind the wall
+            vm = min(self.cb, vw)
+            return self.getVp(vm, self.solveAlpha(vw, False)) * vw - self.cs2
+
+        vMax = self.vJ
+        if shockFront(vMax) > 0:
+            # Largest vw for which the shock front is still ahead of the wall (stay on
+            # the safe side of the root by more than the root finder's tolerance)
+            vMax = root_scalar(
+                shockFront, bracket=[self.cs, self.vJ], rtol=self.rtol, xtol=self.atol
+            ).root * (1 - 4 * self.rtol) - 4 * self.atol
+        if shootingInLTE(vMax) < 0:
             # alpha is too large
             return 1.0
 
         sol = root_scalar(
-            shootingInLTE, bracket=[1e-3, self.vJ], rtol=self.rtol, xtol=self.atol
+            shootingInLTE, bracket=[1e-3, vMax], rtol=self.rtol, xtol=self.atol
         )
         return float(sol.root)
 
